@@ -8,7 +8,13 @@ what="${1:-all}"; bad=0
 if [ "$what" != seeds ]; then
  while IFS=$'\t' read -r f pkgs filt desc; do
   [ -z "$f" ] && continue
-  out=$(tools/trymut.sh $PWD/selftest/mutants/$f "$pkgs" "$filt" 2>&1)
+  if [ "$pkgs" = CHECK ]; then
+   # static / evaluation obligations: run the whole check of property $filt on a scratch copy
+   rm -rf /tmp/mut && rsync -a --exclude .git /repo/ /tmp/mut/ && (cd /tmp/mut && patch -p1 -s < /verif/selftest/mutants/$f)
+   out=$(bin/govc check -repo /tmp/mut -prop "$filt" -tier quick -evidence /tmp/selftest-evidence.json 2>&1 | grep -v "obligation=bounded:" | sed 's/^VIOLATION/  FAIL VIOLATION/'); rm -rf /tmp/mut
+  else
+   out=$(tools/trymut.sh $PWD/selftest/mutants/$f "$pkgs" "$filt" 2>&1)
+  fi
   if echo "$out" | grep -q "^  FAIL"; then echo "ok   $f  ($desc): $(echo "$out" | grep -c '^  FAIL') obligations fail"; else echo "MISS $f  ($desc)"; bad=1; fi
  done < selftest/mutants/INDEX.tsv
 fi
